@@ -528,12 +528,12 @@ class ProgGen:
             if w in seen:
                 continue
             seen.add(w)
-            out.append("%scase %s:" % (pad, self.lit(v, self.type_named(cname(pb, ps)))))
+            out.append("%scase %s: ;" % (pad, self.lit(v, self.type_named(cname(pb, ps)))))
             out += self.stmts(env, depth - 1, r.randint(0, 2), ind + 1, dict(ctx, inloop=ctx.get("inloop"), inswitch=True))
             if r.random() < 0.7:
                 out.append("%s\tbreak;" % pad)
         if r.random() < 0.6:
-            out.append("%sdefault:" % pad)
+            out.append("%sdefault: ;" % pad)
             out += self.stmts(env, depth - 1, r.randint(1, 2), ind + 1, dict(ctx, inswitch=True))
         out.append("%s\t;" % pad)
         return out + ["%s}" % pad]
